@@ -5,12 +5,18 @@ Implementation under test (real code, in-process), exactly the path of DOSINIExp
     Dosini.dump(inst, dir, update_existing=True, is_instance=True)     (+ _dump_status/_dump_output, as conf dirs carry them)
     Dosini.load_from_directory(dir, [], {}, is_instance=True)          loaded again
     FlowIRConcrete(loaded, 'default', {})                              versus FlowIRConcrete(inst, 'default', {})
+and, for descriptions of the default platform, the package file set as well:
+    Dosini.dump(inst, dir, update_existing=True, is_instance=False)    (writes status.conf / output.conf itself)
+    Dosini.load_from_directory(dir, [], {}, is_instance=False)
 Oracle (straight from the property text): for every component the resolved configuration
 (get_component_configuration(raw=False, include_default=True): all options, references, variables) is equal,
 and environments, status and output sections are equal.
 Model: lean/St4sd/Model/Ini.lean + generated tables (harness/gen_c19.py) via drv-c19: for every component of
 the instance `Dosini._flowir_component_to_dict` and `Dosini.parse_component` are compared with the model's
-dumpSection / parseSection; the parse side is also probed key by key.
+dumpSection / parseSection; the parse side is also probed key by key.  lean/St4sd/Model/IniNames.lean: names packed
+into the syntax of the files.  lean/St4sd/Model/IniFloat.lean: numbers written as text (stage weights and the other
+fields of a status section): the text `_dump_status` puts on disk and the float `parse_status` returns are compared
+with printWeight / parseWeight on the number's literal (repr), exactly.
 """
 from __future__ import annotations
 
@@ -84,12 +90,38 @@ def g_text(rng, refs=True):
 
 
 def g_int(rng):
-    return rng.choice([1, 2, 3, 4, 7, 16, 128, rng.randint(0, 100000)])
+    return rng.choice([1, 2, 3, 4, 7, 16, 128, rng.randint(0, 100000), rng.choice(BIG_INTS)])
+
+
+# numbers whose text needs more than the two decimals of ordinary packages: 3-17 fraction digits, exponent
+# notation (repr switches at 1e-4 and 1e16), integers stored as floats, the ends of the float range, sums that are
+# not representable (0.1 + 0.2), integers beyond 2**53 (exact only as int)
+SPECIAL_FLOATS = [0.005, 0.075, 0.125, 0.001, 0.333, 0.334, 1 / 3.0, 2 / 3.0, 0.1 + 0.2, 0.1, 0.7, 0.01, 0.04, 0.95, 0.25,
+                  1e-05, 1.5e-07, 0.0001, 9.999e-05, 1e+16, 9999999999999998.0, 1.7976931348623157e+308, 5e-324,
+                  2.2250738585072014e-308, 1.0, 100.0, 0.0, 123456789.125, 0.1234567890123456, 1e+22, 1e+23,
+                  9007199254740994.0, 0.9999999999999999, 1.0000000000000002, 12345.678, 60.0, 2.25]
+BIG_INTS = [2 ** 31, 2 ** 53 + 1, 10 ** 18, 12345678901234567890]
+
+
+def g_decimals(rng, k=None):
+    """a float with exactly k (1-17) significant fraction digits"""
+    k = k or rng.randint(1, 17)
+    n = rng.randint(1, 10 ** k - 1)
+    if n % 10 == 0:
+        n += 1
+    return float("0.%0*d" % (k, n))
 
 
 def g_float(rng):
     return rng.choice([0.5, 1.0, 2.25, 60.0, 1e-05, 12345.678, 1e+16, 0.1, rng.randint(1, 999) / 8.0, rng.random(),
-                       rng.randint(1, 500)])
+                       rng.randint(1, 500), rng.choice(SPECIAL_FLOATS), g_decimals(rng), g_decimals(rng, rng.randint(3, 9)),
+                       rng.random() * 10.0 ** rng.randint(-12, 20)])
+
+
+def g_number_text(rng):
+    """texts that look like numbers (kept as text by every section of the format)"""
+    return rng.choice(["1e-05", "0.30000000000000004", "007", "1.0", "100.0", "0.005", "1E5", "+3", ".5", "5.", "0x10",
+                       repr(g_decimals(rng)), str(rng.choice(BIG_INTS))])
 
 
 def g_bool(rng):
@@ -245,8 +277,12 @@ def build_doc(spec):
 def canon_scalar(v):
     if isinstance(v, bool) or v is None or isinstance(v, str):
         return v
-    if isinstance(v, (int, float)):
-        return "num:" + repr(float(v))      # 33 == 33.0 in the resolved configuration
+    if isinstance(v, int):
+        return "num:%d" % v                 # exact, also beyond 2**53
+    if isinstance(v, float):
+        if v == v and abs(v) < 2.0 ** 63 and v.is_integer():
+            return "num:%d" % int(v)        # 33 == 33.0 in the resolved configuration
+        return "num:" + repr(v)             # float repr round trip: equal text <=> equal float
     return repr(v)
 
 
@@ -308,46 +344,30 @@ def make_instance(spec):
     return inst
 
 
-def roundtrip(spec, workdir):
-    """-> dict(written=..., loaded=...) of canonical observations, or dict(invalid=...) / dict(error=...)"""
+def _dump_and_load(inst, spec, workdir, files):
+    """one write -> load of the instance description `inst`; files = 'instance' (conf/ of an instance directory:
+    dump(is_instance=True) + status.conf/output.conf, load_from_directory(is_instance=True)) or 'package'
+    (dump(is_instance=False), which writes status.conf/output.conf itself, load_from_directory(is_instance=False)).
+    -> dict(loaded=...) | dict(error=..., message=...)"""
     F, D = _imports()
-    try:
-        inst = make_instance(spec)
-        c1 = F.FlowIRConcrete(copy.deepcopy(inst), "default", {})
-        ids = sorted(c1.get_component_identifiers(True))
-        written = {"comps": {}, "inst": inst}
-        for cid in ids:
-            written["comps"]["stage%d.%s" % cid] = flat_config(c1.get_component_configuration(
-                cid, raw=False, include_default=True, is_primitive=True))
-        written["envs"] = canon_envs(c1.get_environments())
-        written["status"] = canon_section(c1.get_status())
-        written["output"] = canon_section(c1.get_output())
-        if spec.get("replicate"):
-            r1 = F.FlowIRConcrete(c1.replicate(), "default", {})
-            written["replicated"] = {"stage%d.%s" % cid: flat_config(r1.get_component_configuration(
-                cid, raw=False, include_default=True)) for cid in sorted(r1.get_component_identifiers(True))}
-    except Exception as exc:  # the generated description itself is not a valid experiment: not a test of C19
-        return {"invalid": "%s: %s" % (type(exc).__name__, str(exc)[:300])}
+    is_instance = files == "instance"
+    prefix = "" if is_instance else "package-files:"
     d = tempfile.mkdtemp(prefix="case-", dir=workdir)
-    res = {"written": written}
     try:
         dos = D.Dosini()
         try:
-            dos.dump(copy.deepcopy(inst), d, update_existing=True, is_instance=True)
-            dos._dump_status(copy.deepcopy(inst), d)
-            dos._dump_output(copy.deepcopy(inst), d)
+            dos.dump(copy.deepcopy(inst), d, update_existing=True, is_instance=is_instance)
+            if is_instance:
+                dos._dump_status(copy.deepcopy(inst), d)
+                dos._dump_output(copy.deepcopy(inst), d)
         except Exception as exc:
-            res["error"] = "dump-raises:" + type(exc).__name__
-            res["message"] = str(exc)[:300]
-            return res
+            return {"error": prefix + "dump-raises:" + type(exc).__name__, "message": str(exc)[:300]}
         try:
             errs = []
-            new = dos.load_from_directory(d, [], {}, is_instance=True, out_errors=errs)
+            new = dos.load_from_directory(d, [], {}, is_instance=is_instance, out_errors=errs)
             c2 = F.FlowIRConcrete(new, "default", {})
         except Exception as exc:
-            res["error"] = "reload-raises:" + type(exc).__name__
-            res["message"] = str(exc)[:300]
-            return res
+            return {"error": prefix + "reload-raises:" + type(exc).__name__, "message": str(exc)[:300]}
         loaded = {"comps": {}, "load_errors": sorted("%s: %s" % (type(e).__name__, str(e)[:120]) for e in errs)}
         ids2 = sorted(c2.get_component_identifiers(True))
         for cid in ids2:
@@ -366,22 +386,48 @@ def roundtrip(spec, workdir):
                     cid, raw=False, include_default=True)) for cid in sorted(r2.get_component_identifiers(True))}
             except Exception as exc:
                 loaded["replicated"] = {"<raises>": "%s: %s" % (type(exc).__name__, str(exc)[:200])}
-        res["loaded"] = loaded
-        return res
+        return {"loaded": loaded}
     finally:
         shutil.rmtree(d, ignore_errors=True)
+
+
+def roundtrip(spec, workdir):
+    """-> dict(written=..., loaded=... [, package=dict(loaded=...)|dict(error=...)]) of canonical observations, or
+    dict(invalid=...) / dict(written=..., error=...)"""
+    F, D = _imports()
+    try:
+        inst = make_instance(spec)
+        c1 = F.FlowIRConcrete(copy.deepcopy(inst), "default", {})
+        ids = sorted(c1.get_component_identifiers(True))
+        written = {"comps": {}, "inst": inst}
+        for cid in ids:
+            written["comps"]["stage%d.%s" % cid] = flat_config(c1.get_component_configuration(
+                cid, raw=False, include_default=True, is_primitive=True))
+        written["envs"] = canon_envs(c1.get_environments())
+        written["status"] = canon_section(c1.get_status())
+        written["output"] = canon_section(c1.get_output())
+        if spec.get("replicate"):
+            r1 = F.FlowIRConcrete(c1.replicate(), "default", {})
+            written["replicated"] = {"stage%d.%s" % cid: flat_config(r1.get_component_configuration(
+                cid, raw=False, include_default=True)) for cid in sorted(r1.get_component_identifiers(True))}
+    except Exception as exc:  # the generated description itself is not a valid experiment: not a test of C19
+        return {"invalid": "%s: %s" % (type(exc).__name__, str(exc)[:300])}
+    res = {"written": written}
+    res.update(_dump_and_load(inst, spec, workdir, "instance"))
+    # the package file set (experiment.conf, stages.d/stage<i>.conf; Dosini.dump writes status.conf and output.conf
+    # itself there).  Its writer addresses the per-platform sections of every name in `platforms`; an instance
+    # description has folded them into 'default', so only descriptions of the default platform are written this way
+    if "error" not in res and list(inst.get("platforms") or ["default"]) == ["default"]:
+        res["package"] = _dump_and_load(inst, spec, workdir, "package")
+    return res
 
 
 # ----------------------------------------------------------------------------------------
 # oracle
 # ----------------------------------------------------------------------------------------
 
-def oracle(res):
-    """list of (slug, detail): model independent restatement of the property on the real observations"""
+def _oracle_one(w, l, files):
     fails = []
-    if "error" in res:
-        return [(res["error"], {"message": res.get("message")})]
-    w, l = res["written"], res["loaded"]
     # l["load_errors"] (typo / missing-option diagnostics collected by the reader) are not consumed by
     # DOSINIExperimentConfiguration and are not part of the property: tagged only, see run_case
     for kind in ("comps", "replicated"):
@@ -389,25 +435,42 @@ def oracle(res):
             continue
         lw, ll = w[kind], l.get(kind, {})
         if "<raises>" in ll:
-            fails.append(("replication-of-reloaded-instance-raises", ll))
+            fails.append(("replication-of-reloaded-instance-raises", dict(ll, files=files)))
             continue
         for name in sorted(set(lw) | set(ll)):
             if name not in ll or name not in lw:
-                fails.append(("component-set-differs", {"component": name, "written": name in lw, "loaded": name in ll}))
+                fails.append(("component-set-differs", {"component": name, "written": name in lw, "loaded": name in ll,
+                                                        "files": files}))
                 continue
             a, b = lw[name], ll[name]
             if "<raises>" in b:
-                fails.append(("resolving-reloaded-component-raises", {"component": name, "error": b["<raises>"]}))
+                fails.append(("resolving-reloaded-component-raises", {"component": name, "error": b["<raises>"], "files": files}))
                 continue
             for path in sorted(set(a) | set(b)):
                 va, vb = a.get(path), b.get(path)
                 if va != vb:
                     slug = "variable-not-restored" if path.startswith("variables.") else "option-not-restored:" + path
-                    fails.append((slug, {"component": name, "path": path, "written": va, "loaded": vb,
+                    fails.append((slug, {"component": name, "path": path, "written": va, "loaded": vb, "files": files,
                                          "after": "replication" if kind == "replicated" else "load"}))
     for sec, slug in (("envs", "environments-differ"), ("status", "status-section-differs"), ("output", "output-section-differs")):
         if w[sec] != l[sec]:
-            fails.append((slug, {"written": w[sec], "loaded": l[sec]}))
+            fails.append((slug, {"written": w[sec], "loaded": l[sec], "files": files}))
+    return fails
+
+
+def oracle(res):
+    """list of (slug, detail): model independent restatement of the property on the real observations (numbers are
+    compared exactly: canon_scalar is the integer or the float repr)"""
+    if "error" in res:
+        return [(res["error"], {"message": res.get("message")})]
+    fails = _oracle_one(res["written"], res["loaded"], "instance")
+    pkg = res.get("package")
+    if pkg is not None:
+        if "error" in pkg:
+            fails.append((pkg["error"], {"message": pkg.get("message"), "files": "package"}))
+        else:
+            seen = {slug for slug, _ in fails}
+            fails += [(slug, d) for slug, d in _oracle_one(res["written"], pkg["loaded"], "package") if slug not in seen]
     return fails
 
 
@@ -733,13 +796,253 @@ def probe_names(ctx, workdir, only=None):
 
 
 # ----------------------------------------------------------------------------------------
+# numbers written as text: stage weights and the other fields of the status section, float / int options of a component
+# ----------------------------------------------------------------------------------------
+
+FLOAT_OPTION_PATHS = [("workflowAttributes", "repeatInterval"), ("workflowAttributes", "optimizer", "exploitChance"),
+                      ("workflowAttributes", "optimizer", "exploitTarget"), ("workflowAttributes", "optimizer", "exploitTargetLow"),
+                      ("workflowAttributes", "optimizer", "exploitTargetHigh"), ("resourceManager", "config", "walltime"),
+                      ("resourceManager", "lsf", "statusRequestInterval"), ("resourceManager", "kubernetes", "cpuUnitsPerCore")]
+INT_OPTION_PATHS = [("workflowAttributes", "repeatRetries"), ("workflowAttributes", "maxRestarts"),
+                    ("workflowAttributes", "replicate"), ("resourceManager", "kubernetes", "gracePeriod"),
+                    ("resourceRequest", "numberProcesses"), ("resourceRequest", "numberThreads"),
+                    ("resourceRequest", "ranksPerNode"), ("resourceRequest", "threadsPerCore"), ("resourceRequest", "memory")]
+# reader alone, on texts the writer does not produce (decimal literal grammar of float(); clearly invalid texts)
+WEIGHT_TEXTS = ["1e5", "1E5", ".5", "5.", "+0.5", "-.5e-3", "007.50", "0e0", "1e+05", "0.3333333333333333", "12",
+                "abc", "1e", "--1", "e5", ".", "+", "-", "1.2.3", "1e+", "0x10", "", "1,5", "0.5f"]
+
+
+def lit(x):
+    """the canonical literal of a number: what str(x) writes"""
+    return repr(x)
+
+
+def gen_weights(rng, n):
+    """-> (family, [stage weight or None (no stage-weight key)]) for n stages"""
+    fam = rng.choice(["percent", "decimals", "decimals", "decimals", "binary", "nth", "exponent", "long-repr", "fallback-thousandths",
+                      "improper", "improper-missing", "int-and-float"])
+    if fam == "percent" or (n == 1 and fam not in ("int-and-float", "improper", "improper-missing")):
+        ws = [100 // n] * n
+        ws[-1] += 100 - sum(ws)
+        return fam, [w / 100.0 for w in ws]
+    if fam == "decimals":       # proper sum, k decimals
+        k = rng.randint(1, 9)
+        cuts = sorted(rng.randint(0, 10 ** k) for _ in range(n - 1))
+        parts = [b - a for a, b in zip([0] + cuts, cuts + [10 ** k])]
+        return "decimals:%d" % k, [float("%d.%0*d" % (p // 10 ** k, k, p % 10 ** k)) for p in parts]
+    if fam == "binary":         # 1/8, 1/64 ...: exact in binary, 3-10 decimals
+        k = rng.randint(3, 10)
+        cuts = sorted(rng.randint(0, 2 ** k) for _ in range(n - 1))
+        return fam, [(b - a) / float(2 ** k) for a, b in zip([0] + cuts, cuts + [2 ** k])]
+    if fam == "nth":            # 1/3, 1/7 ...: 16-17 significant digits
+        return fam, [1.0 / n] * (n - 1) + [1.0 - (n - 1) * (1.0 / n)]
+    if fam == "exponent":       # repr uses exponent notation below 1e-4
+        small = rng.choice([1e-05, 2.5e-07, 1e-09, 9.999e-05])
+        return fam, [small, 1.0 - small] + [0.0] * (n - 2)
+    if fam == "long-repr":      # 0.1 + 0.2 and friends
+        a = rng.choice([0.1 + 0.2, 0.1 + 0.7, 0.1 * 3])
+        return fam, [a, 1.0 - a] + [0.0] * (n - 2)
+    if fam == "fallback-thousandths":   # what FlowIR itself assigns for improper weights: 0.333 / 0.334
+        fb = int(1000 / n) / 1000.0
+        return fam, [fb] * (n - 1) + [(1000 - (n - 1) * int(1000 / n)) / 1000.0]
+    if fam == "improper":       # FlowIR.instance() replaces them (by thousandths) before anything is written
+        return fam, [rng.choice([rng.random(), g_decimals(rng), -0.5, 2.0]) for _ in range(n)]
+    if fam == "improper-missing":
+        return fam, [None if rng.random() < 0.5 else g_decimals(rng, rng.randint(1, 6)) for _ in range(n)]
+    return fam, [1] + [0.0] * (n - 1)      # an integer weight
+
+
+def gen_status_exe(rng, earlier):
+    return {"executable": rng.choice(["echo", "bin/status.py", "/usr/bin/env"]), "arguments": rng.choice([g_text(rng), g_text(rng), "", g_number_text(rng)]),
+            "references": gen_refs(rng, earlier)}
+
+
+def real_status_section(status, workdir):
+    """real writer -> files -> real reader on a bare status section {int stage: {key: value}}:
+    ({section: {key: text}} as on disk, {stage: {key: value}} as loaded)"""
+    F, D = _imports()
+    d = tempfile.mkdtemp(prefix="status-", dir=workdir)
+    try:
+        D.Dosini._dump_status({F.FlowIR.FieldStatusReport: copy.deepcopy(status)}, d)
+        disk = D.dosini_to_dict(os.path.join(d, "status.conf"), [], consider_meta_as_section=True)
+        disk = {k: dict(v) for k, v in disk.items() if k not in ("DEFAULT", "META")}
+        back = D.Dosini.parse_status({}, copy.deepcopy(disk))
+        return disk, back[F.FlowIR.FieldStatusReport]
+    finally:
+        shutil.rmtree(d, ignore_errors=True)
+
+
+def real_status_text(text):
+    """reader alone: float accepted? its value"""
+    F, D = _imports()
+    import experiment.model.errors as E
+    try:
+        back = D.Dosini.parse_status({}, {"STAGE0": {"stage-weight": text}})
+    except E.ExperimentInvalidConfigurationError:
+        return {"accepted": False, "value": None}
+    return {"accepted": True, "value": repr(float(back[F.FlowIR.FieldStatusReport][0]["stage-weight"]))}
+
+
+def status_case_to_dict(stages):
+    out = {}
+    for st in stages:
+        sec = {}
+        if st.get("w") is not None:
+            sec["stage-weight"] = st["w"]
+        if st.get("exe"):
+            sec.update(copy.deepcopy(st["exe"]))
+        out[int(st["i"])] = sec
+    return out
+
+
+def number_probe_items(rng, quick):
+    items = []
+    floats = list(SPECIAL_FLOATS) + [-0.5, -1e-05, -123.456]
+    for k in range(1, 18):
+        floats += [g_decimals(rng, k) for _ in range(2 if quick else 12)]
+    floats += [rng.random() * 10.0 ** rng.randint(-30, 30) for _ in range(20 if quick else 300)]
+    floats += [rng.random() for _ in range(20 if quick else 300)]
+    seen = set()
+    for x in floats + [0, 1, 3, 10 ** 18]:
+        if (type(x).__name__, repr(x)) not in seen:
+            seen.add((type(x).__name__, repr(x)))
+            items.append({"probe": "status-weight", "x": x})
+    # whole status sections: weights of every family (proper and improper sums, missing weights), status scripts
+    for _ in range(40 if quick else 400):
+        n = rng.choice([1, 2, 3, 3, 4, 5, 7, 12])
+        fam, ws = gen_weights(rng, n)
+        idx = list(range(n)) if rng.random() < 0.8 else sorted(rng.sample(range(0, 130), n))
+        stages = []
+        for i, w in zip(idx, ws):
+            st = {"i": i, "w": w}
+            if rng.random() < 0.4:
+                st["exe"] = gen_status_exe(rng, [(0, "a"), (1, "b-c"), (10, "d.e")])
+            stages.append(st)
+        items.append({"probe": "status-section", "family": fam, "stages": stages})
+    for t in WEIGHT_TEXTS:
+        items.append({"probe": "status-weight-text", "text": t})
+    # float / int options of a component: real writer -> real reader per option
+    for path in FLOAT_OPTION_PATHS:
+        for x in rng.sample(floats, 12 if quick else 80) + [0.005, 0.125, 1e-05, 0.1 + 0.2, 1e+16, 100.0, 3]:
+            if x >= 0:
+                items.append({"probe": "number-option", "path": list(path), "x": x})
+    for path in INT_OPTION_PATHS:
+        for x in [0, 1, 7, 1000, 65536] + BIG_INTS:
+            if not (path[-1] == "replicate" and x == 0):
+                items.append({"probe": "number-option", "path": list(path), "x": x})
+    return items
+
+
+def probe_numbers(ctx, workdir, only=None):
+    """every place where a NUMBER is written as text: real writer -> real reader (oracle: the same number comes back,
+    exactly) and against Model/IniFloat (text on disk, literal read back)"""
+    items = [only] if only is not None else number_probe_items(ctx.rng, ctx.tier == "quick")
+    reqs = []
+    for it in items:
+        if it["probe"] == "status-weight":
+            reqs.append({"op": "weight", "lit": lit(it["x"])})
+        elif it["probe"] == "status-section":
+            reqs.append({"op": "status", "stages": [{"i": st["i"], "w": None if st.get("w") is None else lit(st["w"]),
+                                                     "exe": st.get("exe")} for st in it["stages"]]})
+        elif it["probe"] == "status-weight-text":
+            reqs.append({"op": "status_text", "sections": [{"name": "STAGE0", "lines": [{"k": "stage-weight", "t": it["text"]}]}]})
+        else:
+            reqs.append({"op": "component", "opts": [{"p": it["path"], "v": to_val(it["x"])}]})
+    mouts = ctx.model(reqs)
+    for k, it in enumerate(items):
+        m = None if mouts is None else mouts[k]
+        kind = it["probe"]
+        tags = ["probe:" + kind]
+        if kind == "status-weight":
+            x = it["x"]
+            text = lit(x)
+            if "e" in text:
+                tags.append("number:exponent-notation")
+            if "." in text and "e" not in text:
+                tags.append("number:fraction-digits:%s" % min(len(text.split(".")[1]), 17))
+            ctx.case(it, nontrivial=True, tags=tags)
+            res, err = _guard(real_status_section, {0: {"stage-weight": x}}, workdir)
+            if err:
+                ctx.fail("status-weight-write-or-load-raises", it, {"error": err})
+                continue
+            disk, back = res
+            loaded = (back.get(0) or {}).get("stage-weight")
+            if not isinstance(loaded, float) or canon_scalar(loaded) != canon_scalar(x):
+                ctx.fail("status-weight-not-restored", it, {"written": canon_scalar(x), "text_on_disk": disk.get("STAGE0", {}).get("stage-weight"),
+                                                            "loaded": canon_scalar(loaded)})
+            if m is not None:
+                ctx.compare("text of a stage weight on disk / float read back == IniFloat.printWeight / parseWeight", it,
+                            {"parsed": m.get("parsed"), "canonical": m.get("canonical"), "text": m.get("text"), "same": m.get("same"),
+                             "back": None if m.get("back") is None else repr(float(m["back"]))},
+                            {"parsed": True, "canonical": True, "text": disk.get("STAGE0", {}).get("stage-weight"), "same": True,
+                             "back": repr(float(loaded)) if isinstance(loaded, (int, float)) else None})
+        elif kind == "status-section":
+            ctx.case(it, nontrivial=True, tags=tags + ["weights:" + str(it.get("family", "?")).split(":")[0]])
+            status = status_case_to_dict(it["stages"])
+            res, err = _guard(real_status_section, status, workdir)
+            if err:
+                ctx.fail("status-section-write-or-load-raises", it, {"error": err})
+                continue
+            disk, back = res
+            cw, cl = canon_section(status), canon_section(back)
+            if cw != cl:
+                diff = sorted(k for k in set(cw) | set(cl) if cw.get(k) != cl.get(k))
+                ctx.fail("status-section-not-restored", it, {"stages": diff[:5], "written": {k: cw.get(k) for k in diff[:5]},
+                                                             "loaded": {k: cl.get(k) for k in diff[:5]},
+                                                             "on_disk": {("STAGE" + k): disk.get("STAGE" + k) for k in diff[:5]}})
+            if m is not None:
+                msec = sorted([sec["name"], sorted([l["k"], l["t"]] for l in sec["lines"])] for sec in m["sections"])
+                isec = sorted([name, sorted([k, v] for k, v in kv.items())] for name, kv in disk.items())
+                ctx.compare("status.conf sections on disk == IniFloat.dumpStatus", it, {"ok": m["ok"], "sections": msec},
+                            {"ok": True, "sections": isec})
+                mb = None if m["back"] is None else sorted(
+                    [st["i"], None if st["w"] is None else repr(float(st["w"])),
+                     None if st["exe"] is None else [st["exe"]["executable"], st["exe"]["arguments"], st["exe"]["references"]]]
+                    for st in m["back"])
+                ib = sorted([int(i), None if sec.get("stage-weight") is None else repr(float(sec["stage-weight"])),
+                             None if "executable" not in sec else [sec["executable"], sec["arguments"], list(sec["references"])]]
+                            for i, sec in back.items())
+                ctx.compare("parse_status of the written sections == IniFloat.parseStatus", it, {"same": m["same"], "back": mb},
+                            {"same": True, "back": ib})
+        elif kind == "status-weight-text":
+            ctx.case(it, nontrivial=True, tags=tags)
+            res, err = _guard(real_status_text, it["text"])
+            if err:
+                res = {"accepted": None, "value": err}
+            if m is not None:
+                mb = m.get("back")
+                ctx.compare("parse_status on one stage-weight text == IniFloat.parseWeight", it,
+                            {"accepted": mb is not None, "value": None if mb is None else repr(float(mb[0]["w"]))}, res)
+        else:
+            x, path = it["x"], tuple(it["path"])
+            ctx.case(it, nontrivial=True, tags=tags + ["opt:" + ".".join(path)])
+            comp = {"name": "c", "stage": 0}
+            set_path(comp, path, x)
+            res, err = _guard(real_component_tables, comp)
+            if err:
+                ctx.fail("number-option-write-or-load-raises", it, {"error": err})
+                continue
+            ini, back = res
+            got = [v for p, v in (back or []) if tuple(p) == path]
+            want = canon_scalar(x)
+            if path == ("resourceRequest", "memory"):     # the reader keeps the text of a memory request
+                got = [int(v) if isinstance(v, str) and v.lstrip("-").isdigit() else v for v in got]
+            if back is None or len(got) != 1 or isinstance(got[0], bool) or canon_scalar(got[0]) != want:
+                ctx.fail("number-option-not-restored:" + ".".join(path), it,
+                         {"written": want, "lines": ini, "loaded": [canon_scalar(v) for v in got] if back is not None else "reader raises"})
+            compare_tables(ctx, it, {"components": [comp]})
+
+
+# ----------------------------------------------------------------------------------------
 # generators
 # ----------------------------------------------------------------------------------------
 
 def gen_vars(rng, n, pool=VAR_POOL):
     out = {}
     for name in rng.sample(pool, min(n, len(pool))):
-        out[name] = rng.choice([g_text(rng), g_text(rng), g_word(rng), "", str(rng.randint(0, 99)), rng.randint(0, 99)])
+        out[name] = rng.choice([g_text(rng), g_text(rng), g_word(rng), "", str(rng.randint(0, 99)), rng.randint(0, 99),
+                                g_text(rng), g_word(rng), rng.choice(SPECIAL_FLOATS), g_decimals(rng), rng.choice(BIG_INTS),
+                                g_number_text(rng)])
     return out
 
 
@@ -782,7 +1085,8 @@ def gen_envs(rng, names=None):
         env = {}
         for k in rng.sample(ENV_VARS, rng.randint(1, 4)):
             env[k] = rng.choice(["/opt/%s/bin:$PATH" % g_word(rng), "%(gStr)s/lib", str(rng.randint(1, 64)), g_text(rng),
-                                 "PATH:LD_LIBRARY_PATH", ""])
+                                 "PATH:LD_LIBRARY_PATH", "", "/opt/%s/lib" % g_word(rng), g_number_text(rng),
+                                 rng.choice([rng.choice(SPECIAL_FLOATS), g_decimals(rng), rng.choice(BIG_INTS), rng.randint(1, 64)])])
         envs[name] = env
     return envs
 
@@ -858,17 +1162,16 @@ def gen_spec(rng, all_options=False, backend=None, nstages=None):
     spec["gvars"] = gen_vars(rng, rng.randint(0, 4))
     spec["svars"] = {str(s): gen_vars(rng, rng.randint(1, 3)) for s in range(nstages) if rng.random() < 0.6}
     spec["envs"] = gen_envs(rng, env_names)
-    if rng.random() < 0.8:
-        ws = [100 // nstages] * nstages
-        ws[-1] += 100 - sum(ws)
+    if rng.random() < 0.85:
+        fam, ws = gen_weights(rng, nstages)
+        spec["weights"] = fam
         st = {}
         for s in range(nstages):
-            sec = {"stage-weight": ws[s] / 100.0}
+            sec = {} if ws[s] is None else {"stage-weight": ws[s]}
             if rng.random() < 0.5:
-                sec["executable"] = rng.choice(["echo", "bin/status.py"])
-                sec["arguments"] = rng.choice([g_text(rng), g_text(rng), ""])
-                if rng.random() < 0.6:
-                    sec["references"] = gen_refs(rng, earlier)
+                sec.update(gen_status_exe(rng, earlier))
+                if rng.random() < 0.4:
+                    del sec["references"]
             st[str(s)] = sec
         spec["status"] = st
     if rng.random() < 0.7:
@@ -877,9 +1180,9 @@ def gen_spec(rng, all_options=False, backend=None, nstages=None):
             s, n = rng.choice(earlier)
             sec = {"data-in": "stage%d.%s/out.csv:%s" % (s, n, rng.choice(["ref", "copy"]))}
             if rng.random() < 0.7:
-                sec["description"] = g_text(rng, refs=False)
+                sec["description"] = rng.choice([g_text(rng, refs=False), g_text(rng, refs=False), g_number_text(rng)])
             if rng.random() < 0.7:
-                sec["type"] = rng.choice(["csv", "xyz", "text"])
+                sec["type"] = rng.choice(["csv", "xyz", "text", "csv", "xyz", g_number_text(rng)])
             if rng.random() < 0.7:
                 sec["stages"] = sorted(rng.sample(range(nstages), rng.randint(1, nstages)))
             out[oname] = sec
@@ -956,6 +1259,16 @@ def run_case(ctx, spec, workdir, tags=()):
     for k in ("bp_global", "bp_stage", "pbp_global", "status", "output", "appdeps", "venvs", "replicate"):
         if spec.get(k):
             t.append("has:" + k)
+    if spec.get("weights"):
+        t.append("weights:" + str(spec["weights"]).split(":")[0])
+    if "package" in res:
+        t.append("files:package" + (":error" if "error" in res["package"] else ""))
+    for sec in (res.get("written", {}).get("status") or {}).values():
+        w = sec.get("stage-weight")
+        if isinstance(w, str) and "." in w and "e" not in w:
+            t.append("written-weight-fraction-digits:%d" % min(len(w.split(".")[1]), 17))
+        elif isinstance(w, str) and "e" in w:
+            t.append("written-weight-exponent-notation")
     fails = oracle(res) if "written" in res else []
     if res.get("loaded", {}).get("load_errors"):
         t.append("reader-collected-diagnostics")
@@ -1027,10 +1340,21 @@ def run(ctx):
                 "encode/decode pair for names (environment section, status stage section, stages list of an output, "
                 "stage files) is driven real writer -> real reader on ~110 systematic + 40 random names (400 thorough) "
                 "and stage indices 0-12, 19, 20, 99-101, 123, 1000, 4096 and compared with Model/IniNames. "
+                "Numbers: stage weights are drawn from families (percent; proper sums with 1-9 decimals; binary fractions; "
+                "1/n; exponent notation; 0.1+0.2-like long reprs; the thousandths FlowIR assigns itself; improper sums and "
+                "missing weights; integers), float options / variables / environment values / description texts include "
+                "3-17 fraction digits, exponent notation, integers-as-floats, the ends of the float range and integers beyond "
+                "2**53. Number probes: every special float + floats with 1..17 fraction digits + random magnitudes as the "
+                "stage weight of a bare status section (real _dump_status -> status.conf -> real parse_status; oracle: the "
+                "same float, exactly), whole status sections with status scripts, the reader alone on %d texts, every float "
+                "and int option of a component with such values (real writer -> real reader), all compared with "
+                "Model/IniFloat (text on disk = printWeight, literal read back = parseWeight). Workflows of the default "
+                "platform are additionally written as the package file set (Dosini.dump(is_instance=False), which "
+                "writes status.conf/output.conf itself) and loaded with load_from_directory(is_instance=False). "
                 "non-trivial = at least one explicitly set option and dump+reload completed; distinct by canonical JSON of "
                 "the case. Every component of every instance additionally goes through the real writer/reader and the Lean "
                 "model's dumpSection/parseSection; the reader is probed with %d texts for every known key."
-                % len(PROBE_TEXTS))
+                % (len(WEIGHT_TEXTS), len(PROBE_TEXTS)))
     ctx.assumptions = [
         "safe-string class (configparser trusted on it; found by experiment): printable ASCII text without line breaks, "
         "without leading/trailing white space, '%' only as %(name)s; keys/variable names non-empty, without '=' ':' and not "
@@ -1038,13 +1362,18 @@ def run(ctx):
         "(the reader folds such sections into the defaults); environment names differ by more than letter case and are "
         "not SANDBOX (the format stores them upper-cased and reserves SANDBOX)",
         "variable values are compared as text (the legacy format stores text; variables are only interpolated into text); "
-        "numbers are compared by value (33 == 33.0); an absent key and an empty list/None are the same in status/output sections",
+        "numbers are compared by value and exactly (33 == 33.0; integers as integers, other floats by their repr, never "
+        "approximately); an absent key and an empty list/None are the same in status/output sections",
         "options without a legacy key are outside 'expressible in the legacy format' and never generated: "
         "resourceManager.docker.{image,imagePullPolicy,platform}, resourceManager.kubernetes.{qos,podSpec}, "
         "resourceRequest.gpus, workflowAttributes.isMigrated (isRepeat is derived from repeatInterval, command.interpreter "
         "has a key); variable names equal to a legacy key are not expressible either (the writer asserts)",
         "status sections carry arguments/references only together with an executable (the reader ignores them otherwise)",
-        "float options: CPython float(repr(x)) == x is trusted; the model treats a float as its literal text",
+        "floats: CPython float(repr(x)) == x is trusted; the model treats a float as its decimal literal (sign, integer "
+        "digits, fraction digits, exponent); finite numbers only (no inf/nan), float() is modelled on decimal literals "
+        "without surrounding white space and without '_'; -0.0 is not generated",
+        "the package file set is written only for descriptions whose platform list is ['default'] (Dosini._dump_platforms "
+        "addresses the per-platform sections of every listed platform, which an instance description no longer has)",
     ]
     ctx.trusted.append("C19: configparser read/write on the safe-string class; FlowIRConcrete layering (C04) and "
                        "FlowIR.compress_flowir; CPython float repr round trip; harness flattening of components to (path, value) pairs")
@@ -1064,6 +1393,7 @@ def run(ctx):
     try:
         probe_parse_side(ctx, t)
         probe_names(ctx, workdir)
+        probe_numbers(ctx, workdir)
         for spec in CORPUS:
             run_case(ctx, copy.deepcopy(spec), workdir, tags=["corpus"])
         corpus_dir = os.path.join(os.path.dirname(os.path.dirname(os.path.abspath(__file__))), "corpus", "C19")
@@ -1104,7 +1434,9 @@ def replay(ctx, doc):
     try:
         if isinstance(case, dict) and "spec" in case:
             case = case["spec"]
-        if isinstance(case, dict) and "probe" in case:
+        if isinstance(case, dict) and case.get("probe") in ("status-weight", "status-section", "status-weight-text", "number-option"):
+            probe_numbers(ctx, workdir, only=case)
+        elif isinstance(case, dict) and "probe" in case:
             probe_names(ctx, workdir, only=case)
         elif isinstance(case, dict) and "comps" in case:
             run_case(ctx, case, workdir, tags=["replay"])
